@@ -10,7 +10,7 @@ use crate::{
     conv,
     ext::{compext as x, tasks as t},
     rng::Rng,
-    sexp::{Sexp, a, l, s, tagged},
+    sexp::{Sexp, a, l, tagged},
 };
 use anthem::{
     syntax_tree::fol::sigma_0 as fol,
@@ -54,21 +54,7 @@ fn run_completion_full(e: &Sexp) -> R<Sexp> {
 
 // ------------------------------------------------------------------ external_decompose_full
 fn ext_error(e: &ExternalEquivalenceTaskError) -> Sexp {
-    use ExternalEquivalenceTaskError as E;
-    let v = match e {
-        E::UnsupportedFormulaRepresentation => "UnsupportedFormulaRepresentation",
-        E::NonTightProgram(_) => "NonTightProgram",
-        E::ProgramContainsPrivateRecursion(_) => "ProgramContainsPrivateRecursion",
-        E::InputOutputPredicatesOverlap(_) => "InputOutputPredicatesOverlap",
-        E::InputPredicateInRuleHead(_) => "InputPredicateInRuleHead",
-        E::OutputPredicateInUserGuideAssumption(_) => "OutputPredicateInUserGuideAssumption",
-        E::OutputPredicateInSpecificationAssumption(_) => "OutputPredicateInSpecificationAssumption",
-        E::PlaceholdersWithIdenticalNamesDifferentSorts(_) => "PlaceholdersWithIdenticalNamesDifferentSorts",
-        E::AssumptionContainsNonInputSymbols(_) => "AssumptionContainsNonInputSymbols",
-        E::SpecificationContainsUnsupportedRoles(_) => "SpecificationContainsUnsupportedRoles",
-        E::ProofOutlineError(inner) => return tagged("err", vec![s("ProofOutlineError"), s(t::po_error(inner))]),
-    };
-    tagged("err", vec![s(v)])
+    t::ext_error(e)
 }
 /// errors raised by the checks that precede the translations (they do not depend on `simplify`)
 fn is_validation_error(e: &ExternalEquivalenceTaskError) -> bool {
@@ -76,13 +62,7 @@ fn is_validation_error(e: &ExternalEquivalenceTaskError) -> bool {
     !matches!(e, E::OutputPredicateInUserGuideAssumption(_) | E::ProofOutlineError(_))
 }
 fn ext_warning(w: &ExternalEquivalenceTaskWarning) -> Sexp {
-    use ExternalEquivalenceTaskWarning as W;
-    s(match w {
-        W::NonTightProgram(_) => "NonTightProgram",
-        W::InconsistentDirectionAnnotation(_) => "InconsistentDirectionAnnotation",
-        W::InvalidRoleWithinUserGuide(_) => "InvalidRoleWithinUserGuide",
-        W::DefinitionWithWarning(_) => "DefinitionWithWarning",
-    })
+    t::ext_warning(w)
 }
 
 /// 60%: the task generator of the `tasks` cluster (stratified programs, planted violations of
